@@ -514,3 +514,39 @@ Example C13_ex_homog :
   = Ok [mkarr Z [] 1 [5]; mkarr Z [2%nat] 1 [6; 7]]
   /\ BlockArray Z Z no_array [IsArr Z Z (mkarr Z [] 1 [5]); IsArr Z Z (mkarr Z [] 2 [6])] = Raise ValueError.
 Proof. split; reflexivity. Qed.
+
+(** * Round 3: guards stated over the whole block list / in every execution mode *)
+
+(** the constructor accepts a list of arrays exactly when every two blocks have the same dtype *)
+Theorem C13_constructor_guard_all_blocks :
+  forall (K O : Type) (jnp_array : O -> res (arr K)) (b : list (arr K)),
+    BlockArray K O jnp_array (map (IsArr K O) b) = Ok b <->
+    (forall x y, In x b -> In y b -> a_dtype K x = a_dtype K y).
+Proof. exact constructor_guard_all_blocks. Qed.
+Print Assumptions C13_constructor_guard_all_blocks.
+
+(** acceptance does not depend on the order of the blocks *)
+Theorem C13_constructor_guard_order_independent :
+  forall (K O : Type) (jnp_array : O -> res (arr K)) (b b' : list (arr K)),
+    (forall x, In x b <-> In x b') ->
+    (exists r, BlockArray K O jnp_array (map (IsArr K O) b) = Ok r) <->
+    (exists r, BlockArray K O jnp_array (map (IsArr K O) b') = Ok r).
+Proof. exact constructor_guard_order_independent. Qed.
+Print Assumptions C13_constructor_guard_order_independent.
+
+(** an array-valued property / method gives the block array of the per-block values whether or
+    not the blocks are tracers ([traced] arbitrary) *)
+Theorem C13_attr_mode_independent :
+  forall (K O : Type) (jnp_array : O -> res (arr K)) (traced : arr K -> bool)
+         (get : arr K -> obj K O) (f : arr K -> arr K) (b : list (arr K)),
+    (forall x, get x = IsArr K O (f x)) ->
+    (forall x y, a_dtype K x = a_dtype K y -> a_dtype K (f x) = a_dtype K (f y)) ->
+    valid K b ->
+    attr_wrapper_cls K O jnp_array (fun _ => true) get b = Ok (inl (map f b)).
+Proof. exact attr_mode_independent. Qed.
+Print Assumptions C13_attr_mode_independent.
+
+Example C13_ex_traced_attr :
+  attr_case_ok (true, true, [10; 11], (1, 2)) = true /\ attr_case_ok (false, false, [10; 11], (0, 2)) = true
+  /\ ctor_case_ok ([1; 1], true) = true /\ ctor_case_ok ([2; 1], false) = true /\ ctor_case_ok ([1; 2; 1], false) = true.
+Proof. vm_compute. repeat split; reflexivity. Qed.
